@@ -1,11 +1,256 @@
 import Blue.Proofs.BitVec
+import Blue.Proofs.BitVecLaws
 import Blue.Proofs.Csa
-/-! Property C19: the theorems the check builds and audits (spike inventory; the build phase
-    completes the list from DESIGN Appendix C.0). -/
-#print axioms Blue.Csa.constrain_spec
-#print axioms Blue.Csa.backwardSearch_spec
-#print axioms Blue.Csa.count_spec
-#print axioms Blue.Csa.count_occurrences
-#print axioms Blue.Csa.sorted_of_suffixes
-#print axioms Blue.Csa.search_positions
-#print axioms Blue.Csa.sa_psi
+import Blue.Proofs.CsaDoc
+import Blue.Proofs.ConstsTieC19
+/-! # Property C19 — the compressed text index answers every query as the uncompressed text would;
+    bit vectors answer access/rank/select as a plain bit array
+
+Property theorems only (helper lemmas live in `Blue/Proofs/{BitVec,BitVecLaws,Csa,CsaDoc}.lean`).
+
+**The claim is PARTIAL.**  What is proved is the *algorithmic* layer, about executable models that
+the correspondence check ties to the real `scrunch` crate:
+
+* bit vectors (`Blue/Model/BitVec.lean`): the `BitVector` trait's reference semantics on
+  `List Bool` and its default `select` / `rank0` / `select0` (binary search over `rank`);
+* the index (`Blue/Model/Csa.lean`, `Blue/Model/CsaDoc.lean`): suffixes in suffix-array order, ψ,
+  `Psi::constrain` (the reference ψ's two binary searches), backward search,
+  `Sigma::sa_range_for`, `count`, `search`, `check_record_boundaries`, the record-boundary bit
+  vector with `records` / `lookup` / `offset_of`, and `retrieve` (inverse suffix array + ψ walk).
+  For these the chain is closed at model level: given only that the suffix arrangement is sorted,
+  `count`, `search`, `lookup`, `offset_of` and `retrieve` equal the plain scan of the text.
+
+What is **not** proved and is tied by correspondence only (harness `c19.rs`, every run):
+
+* that SA-IS (`sais.rs`, ~900 lines of induced sorting) returns the sorted permutation of the
+  suffixes — the hypothesis `l.Perm (suffixes T)` + `Pairwise lexLt` of the theorems below.  It is
+  *checked* on every generated text: the suffix array of the built document is read back out of
+  its serialised form and the Lean driver decides sortedness with the model's `lexLt`;
+* that the RRR, cf-RRR and sparse encodings, the wavelet-tree ψ, the Huffman wavelet tree and the
+  sampled SA / ISA arrays answer like the `List Bool` / `psi` / `str` models (compared on every
+  generated bit pattern / text, before and after re-parsing).  -/
+namespace Blue.Props.C19
+open Blue.BitVec Blue.Csa
+
+/-! ## bit vectors -/
+
+/-- `partition_by` returns the partition point of any predicate that is true on a prefix of the
+    searched range -/
+theorem partitionBy_spec (pred : Nat → Bool) (fuel l r : Nat) (hlr : l ≤ r) (hf : r - l < fuel)
+    (hmono : ∀ i j, l ≤ i → i ≤ j → j < r → pred j = true → pred i = true) :
+    l ≤ partitionBy pred fuel l r ∧ partitionBy pred fuel l r ≤ r
+      ∧ (∀ i, l ≤ i → i < partitionBy pred fuel l r → pred i = true)
+      ∧ (∀ i, partitionBy pred fuel l r ≤ i → i < r → pred i = false) :=
+  Blue.BitVec.partitionBy_spec pred fuel l r hlr hf hmono
+
+/-- the trait's default `select` returns the least position whose rank is `x` … -/
+theorem select_spec (bits : List Bool) (x p : Nat) (h : select bits x = some p) :
+    p ≤ bits.length ∧ (bits.take p).count true = x ∧ ∀ q, q < p → (bits.take q).count true < x :=
+  Blue.BitVec.select_spec bits x p h
+
+/-- … and finds it whenever it exists -/
+theorem select_complete (bits : List Bool) (x p : Nat) (hp : p ≤ bits.length)
+    (hr : (bits.take p).count true = x) (hmin : ∀ q, q < p → (bits.take q).count true < x) :
+    select bits x = some p :=
+  Blue.BitVec.select_complete bits x p hp hr hmin
+
+/-- `rank0` counts the clear bits -/
+theorem rank0_spec (bits : List Bool) (x : Nat) (h : x ≤ bits.length) :
+    rank0 bits x = some ((bits.take x).count false) := Blue.BitVec.rank0_spec bits x h
+
+/-- the default `select0` returns the least position whose `rank0` is `x` … -/
+theorem select0_spec (bits : List Bool) (x p : Nat) (h : select0 bits x = some p) :
+    p ≤ bits.length ∧ (bits.take p).count false = x ∧ ∀ q, q < p → (bits.take q).count false < x :=
+  Blue.BitVec.select0_spec bits x p h
+
+/-- … and finds it whenever it exists -/
+theorem select0_complete (bits : List Bool) (x p : Nat) (hp : p ≤ bits.length)
+    (hr : (bits.take p).count false = x) (hmin : ∀ q, q < p → (bits.take q).count false < x) :
+    select0 bits x = some p :=
+  Blue.BitVec.select0_complete bits x p hp hr hmin
+
+/-- inverse laws: `rank (select k) = k`; the `k`-th set bit is found one past its position;
+    `select` is defined exactly for `k ≤` the number of set bits -/
+theorem rank_select (bits : List Bool) (k p : Nat) (h : select bits k = some p) : rank bits p = some k :=
+  Blue.BitVec.rank_select bits k p h
+
+theorem select_rank_of_set (bits : List Bool) (p : Nat) (hp : p < bits.length) (hb : bits[p]? = some true) :
+    select bits ((bits.take p).count true + 1) = some (p + 1) :=
+  Blue.BitVec.select_rank_of_set bits p hp hb
+
+theorem select_defined_iff (bits : List Bool) (k : Nat) :
+    (select bits k).isSome = true ↔ k ≤ bits.count true := Blue.BitVec.select_defined_iff bits k
+
+/-- the cf_rrr defect found by this property, as a theorem about `cf_rrr::rank` *as it was*: at a length that is a positive
+    multiple of the block size, `rank(len)` had no answer although the bit array has one -/
+theorem cf_rrr_rank_unrepaired (bits : List Bool) (h0 : 0 < bits.length)
+    (hb : bits.length % cfBlockBits = 0) :
+    rankCfOld bits bits.length = none ∧ rank bits bits.length = some (bits.count true) :=
+  Blue.BitVec.rankCfOld_defect bits h0 hb
+
+/-- the block size the theorem speaks of is the one in the source (regenerated every run) -/
+theorem cf_block_from_source : cfWordsPerBlock = Blue.Generated.scrunchCfRrrWordsPerBlock :=
+  Blue.ConstsTie.scrunch_cf_rrr_block
+
+/-! ## the index -/
+
+/-- one `Psi::constrain` step -/
+theorem constrain_spec {l : List (List Nat)} (hs : Sorted l) (c : Nat) (w : List Nat)
+    (r0 r1 a b : Nat) (hr1 : r1 < l.length)
+    (hrange : ∀ i, i < l.length → ((r0 ≤ i ∧ i ≤ r1) ↔ (str l i).head? = some c))
+    (hlong : ∀ i, r0 ≤ i → i ≤ r1 → 2 ≤ (str l i).length)
+    (hinto : ∀ i, i < l.length → ((a ≤ i ∧ i < b) ↔ w <+: str l i)) :
+    ∀ i, i < l.length →
+      (((constrain l (r0, r1) (a, b)).1 ≤ i ∧ i < (constrain l (r0, r1) (a, b)).2) ↔ (c :: w) <+: str l i) :=
+  Blue.Csa.constrain_spec hs c w r0 r1 a b hr1 hrange hlong hinto
+
+/-- backward search returns exactly the block of suffixes that start with the needle -/
+theorem backwardSearch_spec {l : List (List Nat)} (hs : Sorted l) (rangeFor : Nat → Nat × Nat)
+    (needle : List Nat) (hne : needle ≠ []) (hr : ∀ c ∈ needle, RangeOk l c (rangeFor c)) :
+    ∀ i, i < l.length →
+      (((backwardSearch l rangeFor needle).1 ≤ i ∧ i < (backwardSearch l rangeFor needle).2)
+        ↔ needle <+: str l i) :=
+  Blue.Csa.backwardSearch_spec hs rangeFor needle hne hr
+
+theorem count_spec {l : List (List Nat)} (hs : Sorted l) (rangeFor : Nat → Nat × Nat)
+    (needle : List Nat) (hne : needle ≠ []) (hr : ∀ c ∈ needle, RangeOk l c (rangeFor c)) :
+    count l rangeFor needle
+      = ((List.range l.length).filter (fun i => needle.isPrefixOf (str l i))).length :=
+  Blue.Csa.count_spec hs rangeFor needle hne hr
+
+/-- any strictly increasing arrangement of a text's suffixes is a `Sorted` index (what SA-IS must
+    deliver; decided per input by the correspondence run) -/
+theorem sorted_of_suffixes (T : List Nat) (l : List (List Nat)) (hperm : l.Perm (suffixes T))
+    (hsorted : l.Pairwise (fun a b => lexLt a b = true)) : Sorted l :=
+  Blue.Csa.sorted_of_suffixes T l hperm hsorted
+
+/-- `count` is the number of text positions at which the needle occurs — a plain scan -/
+theorem count_occurrences (T : List Nat) {l : List (List Nat)} (hperm : l.Perm (suffixes T))
+    (hsorted : l.Pairwise (fun a b => lexLt a b = true)) (rangeFor : Nat → Nat × Nat)
+    (needle : List Nat) (hne : needle ≠ []) (hr : ∀ c ∈ needle, RangeOk l c (rangeFor c)) :
+    count l rangeFor needle
+      = ((List.range T.length).filter (fun k => needle.isPrefixOf (T.drop k))).length :=
+  Blue.Csa.count_occurrences T hperm hsorted rangeFor needle hne hr
+
+/-- `search`: the text positions of the returned ranks are exactly the occurrence positions -/
+theorem search_positions (T : List Nat) {l : List (List Nat)} (hperm : l.Perm (suffixes T))
+    (hsorted : l.Pairwise (fun a b => lexLt a b = true)) (rangeFor : Nat → Nat × Nat)
+    (needle : List Nat) (hne : needle ≠ []) (hr : ∀ c ∈ needle, RangeOk l c (rangeFor c)) (k : Nat) :
+    (k < T.length ∧ needle <+: T.drop k)
+      ↔ ∃ i, (backwardSearch l rangeFor needle).1 ≤ i ∧ i < (backwardSearch l rangeFor needle).2
+          ∧ i < l.length ∧ saOf l T.length i = k :=
+  Blue.Csa.search_positions T hperm hsorted rangeFor needle hne hr k
+
+/-- the sampled-suffix-array walk: following ψ advances one text position -/
+theorem sa_psi {l : List (List Nat)} (hs : Sorted l) (n i : Nat) (hi : i < l.length)
+    (hlong : 2 ≤ (str l i).length) (hn : (str l i).length ≤ n) :
+    saOf l n (psi l i) = saOf l n i + 1 := Blue.Csa.sa_psi hs n i hi hlong hn
+
+/-- `Sigma::sa_range_for` (model `sigmaRange`) delivers what backward search needs, for every
+    symbol other than the end marker — occurring or not — of a text that ends in its only end
+    marker: the `RangeOk` hypothesis of the theorems above is discharged -/
+theorem sigmaRange_ok (T : List Nat) {l : List (List Nat)} (hT : Blue.CsaDoc.Marked T)
+    (hperm : l.Perm (suffixes T)) (hsorted : l.Pairwise (fun a b => lexLt a b = true))
+    (c : Nat) (hc : c ≠ 0) : RangeOk l c (Blue.CsaDoc.sigmaRange l c) :=
+  Blue.CsaDoc.sigmaRange_ok T hT hperm hsorted c hc
+
+/-- headline, no side conditions left but the suffix order: for every text (symbols `≥ 1`, then the
+    end marker), every sorted arrangement of its suffixes and every non-empty needle of symbols
+    `≥ 1` (occurring or absent), the document's `count` is the plain scan's -/
+theorem doc_count_is_scan (T : List Nat) {l : List (List Nat)} (hT : Blue.CsaDoc.Marked T)
+    (hperm : l.Perm (suffixes T)) (hsorted : l.Pairwise (fun a b => lexLt a b = true))
+    (needle : List Nat) (hne : needle ≠ []) (hpos : ∀ c ∈ needle, c ≠ 0) :
+    Blue.CsaDoc.count l needle
+      = ((List.range T.length).filter (fun k => needle.isPrefixOf (T.drop k))).length :=
+  Blue.CsaDoc.count_is_scan T hT hperm hsorted needle hne hpos
+
+/-- the same on the *original* text (`withMarker text` is what the index is built over: symbols
+    shifted above the end marker, marker appended; the needle is shifted the same way): `count` is
+    the number of positions of the text at which the needle occurs … -/
+theorem doc_count_is_scan_text (text : List Nat) {l : List (List Nat)}
+    (hperm : l.Perm (suffixes (Blue.CsaDoc.withMarker text)))
+    (hsorted : l.Pairwise (fun a b => lexLt a b = true)) (needle : List Nat) (hne : needle ≠ []) :
+    Blue.CsaDoc.count l (needle.map (· + 1))
+      = ((List.range text.length).filter (fun k => needle.isPrefixOf (text.drop k))).length :=
+  Blue.CsaDoc.count_is_scan_text text hperm hsorted needle hne
+
+/-- … `search` reports exactly those positions, in ascending order … -/
+theorem doc_search_is_scan_text (text : List Nat) {l : List (List Nat)}
+    (hperm : l.Perm (suffixes (Blue.CsaDoc.withMarker text)))
+    (hsorted : l.Pairwise (fun a b => lexLt a b = true)) (needle : List Nat) (hne : needle ≠ []) :
+    (∀ k, k ∈ Blue.CsaDoc.search l (needle.map (· + 1)) ↔ (k < text.length ∧ needle <+: text.drop k))
+      ∧ (Blue.CsaDoc.search l (needle.map (· + 1))).Pairwise (· ≤ ·) :=
+  ⟨fun k => Blue.CsaDoc.mem_search_text text hperm hsorted needle hne k, Blue.CsaDoc.search_sorted _ _⟩
+
+/-- … and the empty needle counts every position -/
+theorem doc_count_empty (text : List Nat) {l : List (List Nat)}
+    (hperm : l.Perm (suffixes (Blue.CsaDoc.withMarker text))) : Blue.CsaDoc.count l [] = text.length :=
+  Blue.CsaDoc.count_empty text hperm
+
+/-- offset → record: over the boundary bit vector of an admissible division, `lookup` is "the
+    number of record boundaries at or before the offset, minus one", `records` is the number of
+    boundaries and `offset_of(r)` is the `r`-th boundary -/
+theorem doc_records (n : Nat) (rb : List Nat) (hadm : Blue.CsaDoc.admissible n rb = true) :
+    Blue.CsaDoc.records (Blue.CsaDoc.boundaryBits n rb) = rb.length
+      ∧ (∀ off, off ≤ n → Blue.CsaDoc.lookup (Blue.CsaDoc.boundaryBits n rb) off
+            = some (rb.countP (fun b => decide (b ≤ off)) - 1))
+      ∧ (∀ r (hr : r < rb.length), Blue.CsaDoc.offsetOf (Blue.CsaDoc.boundaryBits n rb) r = some rb[r]) :=
+  ⟨Blue.CsaDoc.records_spec n rb hadm, fun off h => Blue.CsaDoc.lookup_spec n rb hadm off h,
+   fun r hr => Blue.CsaDoc.offsetOf_spec n rb hadm r hr⟩
+
+/-- `retrieve(r)` (two `select`s, the inverse suffix array at the record start, then one ψ step per
+    symbol) reproduces record `r` symbol for symbol: the text from the `r`-th boundary to the next
+    one, or to the end of the text -/
+theorem doc_retrieve_record (T : List Nat) {l : List (List Nat)} (hperm : l.Perm (suffixes T))
+    (hsorted : l.Pairwise (fun a b => lexLt a b = true)) (rb : List Nat)
+    (hadm : Blue.CsaDoc.admissible (T.length - 1) rb = true) (r : Nat) (hr : r < rb.length) :
+    Blue.CsaDoc.retrieve l (Blue.CsaDoc.boundaryBits (T.length - 1) rb) r
+      = some ((T.drop rb[r]).take (rb[r + 1]?.getD (T.length - 1) - rb[r])) :=
+  Blue.CsaDoc.retrieve_record T hperm hsorted rb hadm r hr
+
+/-! ## non-vacuity -/
+
+/-- the text `a b a b $` (`1 2 1 2 0`): `ab` occurs twice, `ba` once, `bb` never -/
+example : exL.Perm (suffixes [1, 2, 1, 2, 0]) ∧ exL.Pairwise (fun a b => lexLt a b = true) := by decide
+example : Blue.CsaDoc.Marked [1, 2, 1, 2, 0] := by decide
+example : Blue.CsaDoc.count exL [1, 2] = 2 ∧ Blue.CsaDoc.count exL [2, 1] = 1
+    ∧ Blue.CsaDoc.count exL [2, 2] = 0 ∧ Blue.CsaDoc.count exL [3] = 0
+    ∧ Blue.CsaDoc.search exL [1, 2] = [0, 2] ∧ Blue.CsaDoc.search exL [] = [0, 1, 2, 3] := by decide
+example : RangeOk exL 1 (Blue.CsaDoc.sigmaRange exL 1) :=
+  Blue.CsaDoc.sigmaRange_ok [1, 2, 1, 2, 0] (by decide) (by decide) (by decide) 1 (by decide)
+example : exL.Perm (suffixes (Blue.CsaDoc.withMarker [0, 1, 0, 1])) := by decide
+example : Blue.CsaDoc.admissible 4 [0, 2, 3] = true
+    ∧ Blue.CsaDoc.retrieve exL (Blue.CsaDoc.boundaryBits 4 [0, 2, 3]) 0 = some [1, 2]
+    ∧ Blue.CsaDoc.retrieve exL (Blue.CsaDoc.boundaryBits 4 [0, 2, 3]) 2 = some [2]
+    ∧ Blue.CsaDoc.lookup (Blue.CsaDoc.boundaryBits 4 [0, 2, 3]) 2 = some 1 := by decide
+example : select [false, true, false, true] 2 = some 4 ∧ select [false, true, false, true] 3 = none
+    ∧ select0 [false, true, false, true] 2 = some 3 ∧ rank0 [false, true] 2 = some 1 := by decide
+example : partitionBy (fun i => decide (i < 3)) 11 0 10 = 3 := by decide
+
+end Blue.Props.C19
+
+#print axioms Blue.Props.C19.partitionBy_spec
+#print axioms Blue.Props.C19.select_spec
+#print axioms Blue.Props.C19.select_complete
+#print axioms Blue.Props.C19.rank0_spec
+#print axioms Blue.Props.C19.select0_spec
+#print axioms Blue.Props.C19.select0_complete
+#print axioms Blue.Props.C19.rank_select
+#print axioms Blue.Props.C19.select_rank_of_set
+#print axioms Blue.Props.C19.select_defined_iff
+#print axioms Blue.Props.C19.cf_rrr_rank_unrepaired
+#print axioms Blue.Props.C19.cf_block_from_source
+#print axioms Blue.Props.C19.constrain_spec
+#print axioms Blue.Props.C19.backwardSearch_spec
+#print axioms Blue.Props.C19.count_spec
+#print axioms Blue.Props.C19.sorted_of_suffixes
+#print axioms Blue.Props.C19.count_occurrences
+#print axioms Blue.Props.C19.search_positions
+#print axioms Blue.Props.C19.sa_psi
+#print axioms Blue.Props.C19.sigmaRange_ok
+#print axioms Blue.Props.C19.doc_count_is_scan
+#print axioms Blue.Props.C19.doc_count_is_scan_text
+#print axioms Blue.Props.C19.doc_search_is_scan_text
+#print axioms Blue.Props.C19.doc_count_empty
+#print axioms Blue.Props.C19.doc_records
+#print axioms Blue.Props.C19.doc_retrieve_record
